@@ -198,16 +198,19 @@ class C05Monitor(Monitor):
             before = self.prev[b]
             ids_after = [id(x) for x in stored]
             ids_before = [id(x) for x in before]
-            still = [i for i in ids_before if i in set(ids_after)]
-            r = len(ids_before) - len(still)
-            if ids_before[r:] != still or ids_after[:len(still)] != still:
+            # departures are a prefix of what was stored; the rest keeps its order and arrivals are appended.  (On a
+            # re-entrant route a part can leave and come back within one dispatch: it is then an arrival at the back.)
+            r = next((r for r in range(len(ids_before) + 1)
+                      if ids_after[:len(ids_before) - r] == ids_before[r:]), None)
+            if r is None:
                 f.fail('C05.c', f'buffer {b}: content {[x.name for x in stored]} is not '
                        f'{[x.name for x in before]} minus a prefix plus arrivals', 'fifo')
+            still = ids_before[r:]
             arrivals = stored[len(still):]
+            departed = [(x, self.arrival.pop((b, id(x)))) for x in before[:r]]
             for x in arrivals:
                 self.arrival[(b, id(x))] = now
-            for x in before[:r]:
-                t_in = self.arrival.pop((b, id(x)))
+            for x, t_in in departed:
                 ulp = math.ulp(now)
                 if o.minimum_delay - (now - t_in) > ulp:
                     f.fail('C05.d', f'buffer {b}: part {x.name} arrived at {t_in} and left at {now}, '
